@@ -242,7 +242,7 @@ func isLenCall(v ssa.Value) bool {
 		return c.Call.Method.Name() == "Len"
 	}
 	f := c.Call.StaticCallee()
-	return f != nil && f.Name() == "Len" && f.Signature.Recv() != nil
+	return f != nil && f.Name() == "Len" && f.Signature.Recv() != nil && !isPointerToNamed(f.Signature.Recv().Type(), "linkBufferNode")
 }
 
 func isEmptyCall(v ssa.Value) bool {
@@ -254,7 +254,7 @@ func isEmptyCall(v ssa.Value) bool {
 		return c.Call.Method.Name() == "IsEmpty"
 	}
 	f := c.Call.StaticCallee()
-	return f != nil && f.Name() == "IsEmpty" && f.Signature.Recv() != nil
+	return f != nil && f.Name() == "IsEmpty" && f.Signature.Recv() != nil && !isPointerToNamed(f.Signature.Recv().Type(), "linkBufferNode")
 }
 
 // zeroLenFact: the buffer length was observed to be zero (empty=true) or positive (empty=false).
